@@ -221,10 +221,13 @@ def index_models(tier, cov, which):
     s = seed()
     cfgs = [("q3", "2 goroutines x 2 requests, 1 key, 1 size, corrupt file initially indexed")]
     if tier == "thorough":
-        cfgs += [("q1", "2 goroutines x 2 requests, 2 keys, 2 sizes"),
-                 ("2x2c", "2 goroutines x 2 requests, 2 keys, 2 sizes, corrupt file initially indexed"),
-                 ("q2", "3 goroutines x 1 request, 2 keys, 2 sizes, corrupt file initially indexed"),
-                 ("q3live", "q3 with the liveness properties: every request ends, the remover catches up (fairness of Spec)"),
+        cfgs += [("q1", "2 goroutines x 2 requests, 2 keys, 2 sizes")]
+        if which in ("C03", "C07"):
+            # the two 50 M-state configurations (13 and 16 min on 16 cores) check every invariant of the module at
+            # once; they are run by the accounting and the concurrency property, not five times over
+            cfgs += [("2x2c", "2 goroutines x 2 requests, 2 keys, 2 sizes, corrupt file initially indexed"),
+                     ("q2", "3 goroutines x 1 request, 2 keys, 2 sizes, corrupt file initially indexed")]
+        cfgs += [("q3live", "q3 with the liveness properties: every request ends, the remover catches up (fairness of Spec)"),
                  ("q3b", "2 goroutines x 2 requests, 1 key, 1 size, corrupt file initially indexed, proxy backend (fetch = reserve / ask + create / copy / commit / clean-up; uploads handed to the backend)")]
     for c, desc in cfgs:
         r = model_check(f"Cache/{c}", "MC_Cache.tla", f"MC_Cache_{c}.cfg", workers=16,
